@@ -10,7 +10,8 @@ Inductive c20_case :=
 | MPath (path expected : bytes)              (* types.MerklePath *)
 | AddM (path app expected : bytes)           (* types.AddToMerkle *)
 | Post (hparent hchild expected : bytes)     (* MsgPostFileResponse.Path of filetree PostFile *)
-| Helper (path hparent hchild : bytes).      (* types.MerkleHelper: the client-side split of a plain path *)
+| Helper (path hparent hchild : bytes)       (* types.MerkleHelper: the client-side split of a plain path *)
+| HashHex (input expected : bytes).          (* types.HashThenHex: what a client hashes a child name with *)
 
 Definition c20_ok (c : c20_case) : bool :=
   match c with
@@ -19,4 +20,5 @@ Definition c20_ok (c : c20_case) : bool :=
   | AddM p a e => beqb (add_to_merkle sha256 p a) e
   | Post hp hc e => beqb (post_file_path sha256 hp hc) e
   | Helper p hp hc => let (mp, mc) := client_split sha256 p in beqb mp hp && beqb mc hc
+  | HashHex i e => beqb (hexH sha256 i) e
   end.
